@@ -47,7 +47,7 @@ impl Tracer {
 
 /// classify an execution error for the trace (the spec only distinguishes a few classes)
 pub fn err_class(e: &anyhow::Error) -> String {
-    let s = format!("{:#}", e);
+    let s = e.root_cause().to_string();
     let l = s.to_lowercase();
     if l.contains("injected fault") {
         "injected".into()
@@ -74,6 +74,6 @@ pub fn err_class(e: &anyhow::Error) -> String {
     }
 }
 pub fn err_text(e: &anyhow::Error) -> String {
-    let s = format!("{:#}", e);
+    let s = e.root_cause().to_string();
     s.chars().take(300).collect()
 }
